@@ -131,17 +131,19 @@ def mc_job(name, module, cfgs, props, export=True, strict=True, cap_q=700, cap_t
     return job
 
 
-def run_batch(plan, pid, name, scheds, wd, idx):
+def run_batch(plan, pid, name, scheds, wd, idx, world=None, monitor=None):
     """Execute schedules on the real code and judge the recorded trace with the TLC monitor."""
+    world = world or plan.world
+    monitor = monitor or plan.monitor
     sp = os.path.join(wd, "sched-%s-%d.ndjson" % (name, idx))
     tp = os.path.join(wd, "trace-%s-%d.ndjson" % (name, idx))
     with open(sp, "w") as f:
         for s in scheds:
             f.write(json.dumps(s, separators=(",", ":")) + "\n")
-    hres = C.rvh([plan.world, sp, tp])
-    flags, cov, states, dt = C.tlc_trace(plan.monitor, tp, wd)
+    hres = C.rvh([world, sp, tp])
+    flags, cov, states, dt = C.tlc_trace(monitor, tp, wd)
     strict = None
-    if name.startswith("model:") and plan.world == "msg" and ":MC_C" in name and "MC_Server" not in name and scheds and scheds[0].get("strict", True):
+    if name.startswith("model:") and world == "msg" and ":MC_C" in name and "MC_Server" not in name and scheds and scheds[0].get("strict", True):
         strict = C.tlc_strict(scheds[0]["cfg"], tp, wd)
     return {"sched_path": sp, "trace_path": tp, "harness": hres, "flags": flags, "cov": cov, "states": states, "tlc_s": dt, "strict": strict}
 
@@ -160,7 +162,10 @@ def run_check(pid, tier, replay=None):
         r = json.load(open(replay))
         batches.append(("replay", [r["schedule"]]))
     else:
-        for name, fn in plan.gens:
+        for g in plan.gens:
+            name, fn = g[0], g[1]
+            if len(g) > 2:
+                name = "%s@%s@%s" % (name, g[2], g[3])
             scheds = fn(rng, tier, plan.props)
             # chunk so that traces stay small
             chunk, size = [], 0
@@ -206,7 +211,10 @@ def run_check(pid, tier, replay=None):
     drift_samples = []
     from concurrent.futures import ThreadPoolExecutor
     with ThreadPoolExecutor(max_workers=PAR) as ex:
-        futs = [ex.submit(run_batch, plan, pid, name, scheds, wd, bi) for bi, (name, scheds) in enumerate(batches)]
+        def wm(name):
+            parts = name.split("@")
+            return (parts[1], parts[2]) if len(parts) == 3 else (None, None)
+        futs = [ex.submit(run_batch, plan, pid, name.split("@")[0], scheds, wd, bi, wm(name)[0], wm(name)[1]) for bi, (name, scheds) in enumerate(batches)]
         results = [f.result() for f in futs]
     for (name, scheds), res in zip(batches, results):
         total_events += res["harness"].get("events", 0)
@@ -229,7 +237,7 @@ def run_check(pid, tier, replay=None):
         for s in scheds:
             h = sched_hash(s)
             hashes.add(h)
-            if (plan.world == "msg" and nontrivial_msg(s)) or (plan.world == "nc" and nontrivial_nc(s)):
+            if any(st["a"].startswith(("rt_", "re_")) for st in s["steps"]) or ("conns" in s["cfg"] and nontrivial_msg(s)) or ("max_clients" in s["cfg"] and nontrivial_nc(s)):
                 nontriv.add(h)
         if len(samples) < 3 and scheds:
             s = scheds[0]
@@ -456,6 +464,115 @@ def g_nc_live(rng, tier, props):
     return GN.liveness_schedules(rng, props, n_of(tier, 200, 4000), tier != "quick")
 
 
+_wire_cache = {}
+
+
+def wire_job(tier, wd, rng):
+    """MC_Wire: ack range list + delta coding; every reachable list is exported as a round-trip case."""
+    res = C.tlc_mc("MC_Wire", "MC_Wire_q.cfg" if tier == "quick" else "MC_Wire_t.cfg", wd, workers=8, timeout=1200)
+    res["name"] = "wire:MC_Wire"
+    import re
+    lists = set()
+    for m in re.finditer(r'<<"RANGES", "(.*)">>', res.get("text", "")):
+        lists.add(m.group(1))
+    _wire_cache["ranges"] = [json.loads(x) for x in sorted(lists)]
+    res["range_lists_exported"] = len(lists)
+    res["schedules"] = []
+    if not res.get("violated"):
+        res.pop("text", None)
+    return [res]
+
+
+def big(v):
+    return v if v < (1 << 31) else str(v)
+
+
+MSG_CFG = {"conns": [1], "sc": GM.default_chans(), "cs": GM.default_chans(), "budget": 60000, "seqbase": 0, "midbase": 0}
+
+
+def g_wire_renet(rng, tier, props):
+    full = tier != "quick"
+    steps = []
+    bases = [0, 58, 16378, (1 << 30) - 8, (1 << 62) - 16]
+    ranges = _wire_cache.get("ranges", [[[0, 1]], [[0, 2], [3, 4]]])
+    if not full and len(ranges) > 250:
+        ranges = rng.sample(ranges, 250)
+    for rs in ranges:
+        for b in bases:
+            steps.append({"a": "rt_renet", "kind": "ACK", "seq": big(rng.choice(bases)), "ch": 0, "ranges": [[big(lo + b), big(hi + b)] for lo, hi in rs], "shape": "model_ranges"})
+    # 64 ranges, single-element ranges with gaps of exactly one, wide gaps
+    steps.append({"a": "rt_renet", "kind": "ACK", "seq": 5, "ch": 0, "ranges": [[2 * i, 2 * i + 1] for i in range(64)], "shape": "64x1"})
+    steps.append({"a": "rt_renet", "kind": "ACK", "seq": 5, "ch": 0, "ranges": [[big(i << 40), big((i << 40) + (1 << 20))] for i in range(64)], "shape": "64wide"})
+    vals = [0, 1, 63, 64, 16383, 16384, (1 << 30) - 1, 1 << 30, (1 << 62) - 1]
+    lens = [0, 1, 63, 64, 1200]
+    for seq in vals:
+        for mid in vals:
+            if not full and rng.random() < 0.5:
+                continue
+            nm = rng.randint(0, 3)
+            msgs = [{"mid": big(mid), "len": rng.choice(lens if nm < 2 else [0, 1, 63, 64, 300])} for _ in range(nm)]
+            steps.append({"a": "rt_renet", "kind": "SR", "seq": big(seq), "ch": rng.choice([0, 255]), "msgs": msgs, "shape": "small"})
+            steps.append({"a": "rt_renet", "kind": "SU", "seq": big(seq), "ch": rng.choice([0, 255]), "msgs": msgs, "shape": "small"})
+            for kind in ("RS", "US"):
+                n = rng.choice([1, 2, 63, 64, 16384, 1000000])
+                steps.append({"a": "rt_renet", "kind": kind, "seq": big(seq), "ch": 7,
+                              "sl": {"mid": big(mid), "idx": rng.choice([0, n - 1]), "n": n, "len": rng.choice([1, 63, 64, 1199, 1200])}, "shape": "slice"})
+    # byte strings: valid encodings, their truncations / single-byte replacements, random strings
+    samples = [W.small_reliable(3, 2, [(0, GM.fill(5)), (70, GM.fill(64))]), W.small_unreliable(16384, 0, [GM.fill(0), GM.fill(63)]),
+               W.slice_packet(True, 1 << 30, 2, 64, 1, 3, GM.fill(1200)), W.slice_packet(False, 3, 0, 0, 1, 2, GM.fill(0)),
+               W.ack(3, [(0, 2), (4, 5), (9, 12)]), W.ack(3, [(0, 1)]), W.ack(70000, [(5, 6), (1 << 40, (1 << 40) + 3)])]
+    for kind, b in GM.hostile_mutations(rng, samples, 400 if not full else 5000):
+        steps.append({"a": "re_renet", "hex": b.hex(), "shape": kind})
+    for kind, b in GM.hostile_structural(rng, full=False):
+        steps.append({"a": "re_renet", "hex": b.hex(), "shape": kind})
+    cfg = dict(MSG_CFG, props=props)
+    scheds = [{"id": "wire-renet-%d" % i, "cfg": cfg, "steps": steps[i:i + 25]} for i in range(0, len(steps), 25)]
+    # acks = the recorded set: feed chosen sequence numbers through the public API, flush, compare the ack packet with pending_acks
+    for j, rs in enumerate(rng.sample(ranges, min(len(ranges), 60)) + [[[2 * i, 2 * i + 1] for i in range(70)]]):
+        seqs = [q for lo, hi in rs for q in range(lo, hi)]
+        for order in ("asc", "desc", "rand"):
+            qs = sorted(seqs) if order == "asc" else sorted(seqs, reverse=True) if order == "desc" else rng.sample(seqs, len(seqs))
+            base = rng.choice([0, 58, 16378])
+            sc = GM.Sched("ackset-%d-%s" % (j, order), dict(MSG_CFG, props=props))
+            to = rng.choice("SC")
+            for q in qs:
+                sc.add(a="hostile", conn=1, to=to, hex=W.small_unreliable(q + base, 0, []).hex(), shape="emptyseq", ctx=order)
+                if rng.random() < 0.2:
+                    sc.add(a="flush", conn=1, side=to)
+            sc.add(a="flush", conn=1, side=to)
+            scheds.append(sc.s)
+    return scheds
+
+
+def g_wire_netcode(rng, tier, props):
+    full = tier != "quick"
+    steps = []
+    seqs = [0, 1, 255, 256, 65535, 65536, (1 << 24) - 1, 1 << 24, (1 << 32) - 1, 1 << 32, 1 << 40, 1 << 48, 1 << 56, 1 << 63, (1 << 64) - 1]
+    for kind in ("Request", "Denied", "Challenge", "Response", "KeepAlive", "Payload", "Disconnect"):
+        for seq in seqs:
+            for plen in ((0, 1, 1299, 1300) if kind == "Payload" else (0,)):
+                steps.append({"a": "rt_netcode", "kind": kind, "seq": str(seq), "plen": plen, "shape": "%s-seq%d" % (kind, seq.bit_length())})
+    for n in (range(1, 33) if full else (1, 2, 3, 16, 31, 32)):
+        for fam in ("v4", "v6", "mixed"):
+            hosts = [(1000 + i if (fam == "v6" or (fam == "mixed" and i % 2)) else i + 1) for i in range(n)]
+            steps.append({"a": "rt_token", "hosts": hosts, "id": rng.choice([0, 7, (1 << 30)]), "ud": rng.randint(0, 200), "create": rng.choice([0, 100]),
+                          "expire_s": rng.choice([0, 30]), "timeout_s": rng.choice([-1, 0, 15]), "shape": "token-%d-%s" % (n, fam)})
+    out = []
+    for i in range(0, len(steps), 10):
+        sc = GN.NS("wire-netcode-%d" % i, props, max_clients=3)
+        sc.s["steps"] = steps[i:i + 10]
+        out.append(sc.s)
+    # re-encoding of every datagram kind of a live session, intact and with single-bit flips
+    sc = GN.NS("wire-netcode-re", props, max_clients=3)
+    names = GN.context_prefix(sc, "client_disconnected")
+    for nm in names.values():
+        sc.add(a="re_netcode", d=nm, shape="session")
+        for _ in range(20):
+            sc.add(a="re_netcode", d=nm, mut={"bit": rng.randrange(0, 2400)}, shape="session-bit")
+    out.append(sc.s)
+    return out
+
+
 NC_ASSUME = [
     "TLC (trace monitor) and the observer module spec/NetcodeObs.tla are the oracle",
     "symbolic reading of the AEAD: the chacha20poly1305 crate, the OS RNG and key secrecy are trusted",
@@ -481,6 +598,14 @@ PLANS = {
     "C10": Plan("nc", "TraceNetcodeMon", ["C10"], [("handshake_histories", g_nc_handshake), ("payload_histories", g_nc_payload)],
                 mc=[mc_job("nc_table", "MC_Netcode", {"quick": ["MC_NC_q2.cfg"], "thorough": ["MC_NC_q1.cfg", "MC_NC_q2.cfg", "MC_NC_q3.cfg"]}, ["C10"], strict=False)],
                 level="model_checking", assumptions=NC_ASSUME),
+    "C16": Plan("msg", "TraceRenetMon", ["C16"],
+                [("wire_renet", g_wire_renet, "msg", "TraceRenetMon"), ("wire_netcode", g_wire_netcode, "nc", "TraceNetcodeMon"),
+                 ("sizes", g_sizes, "msg", "TraceRenetMon")],
+                mc=[wire_job], level="model_checking", assumptions=MSG_ASSUME,
+                rule="round-trip cases: every reachable pending-ack range list of the model shifted across the varint width boundaries, packets of "
+                     "every kind with fields at 0/1/63/64/16383/16384/2^30-1/2^30/2^62-1, netcode packets of every kind x 15 sequence values x "
+                     "payload lengths, tokens with 1..32 IPv4/IPv6 addresses, byte strings (valid encodings, truncations, byte replacements, "
+                     "random) for decode-reencode-decode; all cases count as non-trivial, distinct = different step lists"),
     "C17": Plan("nc", "TraceNetcodeMon", ["C17"], [("bits", g_nc_bits), ("handshake_histories", g_nc_handshake), ("payload_histories", g_nc_payload)],
                 mc=[mc_job("nc_nonce", "MC_Netcode", {"quick": ["MC_NC_q3.cfg"], "thorough": ["MC_NC_q1.cfg", "MC_NC_q2.cfg", "MC_NC_q3.cfg", "MC_NC_q4.cfg"]}, ["C17"], strict=False)],
                 level="model_checking", assumptions=NC_ASSUME),
